@@ -265,9 +265,14 @@ def _state_violations(state):
                     if a not in state.actions:
                         bad.append(("refs", "running flow %s scope %s lists action %s which is not in state.actions" % (uid, sc, a)))
         if fs.parent_uid is not None and fs.parent_uid not in state.flow_states:
-            bad.append(("refs", "running flow %s has parent %s which is not in state.flow_states%s" % (
-                uid, fs.parent_uid, " [instance of an activated flow whose reference instance was collected]"
-                if fs.parent_uid.startswith("(%s)" % fs.flow_id) else "")))
+            # the known finding is about a reference instance that was collected AFTER it had been deactivated (activated == 0 - the only
+            # instances the clean-up may select); a reference instance collected while still activated is a different failure
+            tag = ""
+            if fs.parent_uid.startswith("(%s)" % fs.flow_id):
+                act = _COLLECTED.get(fs.parent_uid)
+                tag = (" [instance of an activated flow whose reference instance was collected]" if act in (0, None)
+                       else " [reference instance collected while still activated (activated=%s)]" % act)
+            bad.append(("refs", "running flow %s has parent %s which is not in state.flow_states%s" % (uid, fs.parent_uid, tag)))
     indexed = []
     for name, lst in state.event_matching_heads.items():
         for fuid, huid in lst:
@@ -292,6 +297,9 @@ def _state_violations(state):
 # ---------------------------------------------------------------------------------------------
 # driving the interpreter
 # ---------------------------------------------------------------------------------------------
+_COLLECTED = {}     # flow instance uid -> `activated` at the moment _clean_up_state collected it (filled by the passive wrapper in _World)
+
+
 class _World:
     """virtual clock + scripted tie-breaks, patched into the interpreter modules for the duration of the check"""
 
@@ -331,14 +339,24 @@ class _World:
                 import random
                 return getattr(random, name)
 
-        self.saved = (sm.datetime, flows.datetime, sm.random)
+        real_clean_up = sm._clean_up_state
+
+        def clean_up(state):
+            before = {u: f.activated for u, f in state.flow_states.items()}
+            real_clean_up(state)
+            for u, a in before.items():
+                if u not in state.flow_states:
+                    _COLLECTED[u] = a          # passive: what the clean-up collected, with the activation count it had
+
+        self.saved = (sm.datetime, flows.datetime, sm.random, real_clean_up)
         sm.datetime = Clock
         flows.datetime = Clock
         sm.random = Chooser()
+        sm._clean_up_state = clean_up
 
     def uninstall(self):
         from nemoguardrails.colang.v2_x.runtime import flows, statemachine as sm
-        sm.datetime, flows.datetime, sm.random = self.saved
+        sm.datetime, flows.datetime, sm.random, sm._clean_up_state = self.saved
 
     def idle(self, seconds=6.0):
         import datetime as _dt
